@@ -79,6 +79,13 @@ def short_hash(obj: Any) -> str:
 # --------------------------------------------------------------------------- worker
 
 
+def shard_interpreter(shard: int) -> tuple[list[str], str]:
+    """how the worker of a shard is started: every fourth shard under `python -O` (what asphalt itself calls production mode:
+    `assert` statements and `if __debug__:` blocks are gone), and the shards under three different hash seeds (set / dict-of-str
+    iteration orders differ between them); a replay file remembers both"""
+    return (["-O"] if shard % 4 == 3 else []), str(shard % 3)
+
+
 def logging_on(idx: int) -> bool:
     """every third case runs with asphalt's logging switched on down to DEBUG (records are formatted and thrown away), the
     others with logging disabled: what the library does must not depend on whether anybody listens to its log"""
@@ -189,6 +196,8 @@ def worker_main(argv: list[str]) -> int:
                 set_logging(False)
             if logging_on(idx):
                 res["counters"]["cases_run_with_debug_logging_on"] += 1
+            if sys.flags.optimize:
+                res["counters"]["cases_run_under_python_O"] += 1
             if fired[0]:
                 raise CaseTimeout("wall-clock watchdog fired %d time(s) during this case (inconclusive, not a verdict)" % fired[0])
         except BaseException as exc:  # harness failure (or wall-clock watchdog): never a verdict on asphalt
@@ -210,7 +219,8 @@ def worker_main(argv: list[str]) -> int:
         for v in r.get("violations") or []:
             res["n_violations"] += 1
             if len(res["violations"]) < MAX_VIOLATIONS_KEPT:
-                res["violations"].append({"idx": idx, "case": case, "logging": logging_on(idx), **v})
+                res["violations"].append({"idx": idx, "case": case, "logging": logging_on(idx), "optimize": bool(sys.flags.optimize),
+                                          "hashseed": os.environ.get("PYTHONHASHSEED", "0"), **v})
         if r.get("sample") is not None and len(res["samples"]) < MAX_SAMPLES:
             res["samples"].append(r["sample"])
     res["reach"] = reach.stop()
@@ -260,9 +270,10 @@ def run_check(prop: str, tier: str, seed: int, jobs: int | None = None) -> int:
     procs = []
     for s in range(nshards):
         out = os.path.join(tmp, f"shard{s}.json")
+        flags, hashseed = shard_interpreter(s)
         p = subprocess.Popen(
-            [PYTHON, "-m", "vkit.worker", prop, str(s), str(nshards), tier, str(seed), out],
-            cwd=ROOT, env=env, stdout=subprocess.PIPE, stderr=subprocess.STDOUT,
+            [PYTHON, *flags, "-m", "vkit.worker", prop, str(s), str(nshards), tier, str(seed), out],
+            cwd=ROOT, env={**env, "PYTHONHASHSEED": hashseed}, stdout=subprocess.PIPE, stderr=subprocess.STDOUT,
         )
         procs.append((s, p, out))
     watchdog = float(plan.get("budget_s", 120)) * 3 + 120
@@ -401,7 +412,8 @@ def finish(mod: Any, prop: str, tier: str, seed: int, plan: dict[str, Any], m: d
             seen_keys.add(v.get("key"))
             rp = os.path.join(ROOT, "replays", f"{prop}_{tier}_{seed}_{v['idx']}_{short_hash(v.get('key') or '')}.json")
             with open(rp, "w") as f:
-                json.dump({"property": prop, "case": v["case"], "logging": bool(v.get("logging")), "key": v.get("key"), "msg": v.get("msg"),
+                json.dump({"property": prop, "case": v["case"], "logging": bool(v.get("logging")), "optimize": bool(v.get("optimize")),
+                           "hashseed": v.get("hashseed", "0"), "key": v.get("key"), "msg": v.get("msg"),
                            "witness": v.get("witness")}, f, indent=1, default=safe_repr)
             print(f"   violation[{v.get('key')}]: {v.get('msg')}")
             print(f"VIOLATION property={prop} replay={rp}")
@@ -423,6 +435,11 @@ def replay(prop: str, path: str) -> int:
     mod = importlib.import_module(CHECKS[prop])
     with open(path) as f:
         rec = json.load(f)
+    want_opt, want_seed = bool(rec.get("optimize")), str(rec.get("hashseed", "0"))
+    if (bool(sys.flags.optimize) != want_opt or os.environ.get("PYTHONHASHSEED") != want_seed) and not os.environ.get("VERIF_REPLAY_CHILD"):
+        # the case was found by a worker started differently (python -O / another hash seed): replay it the same way
+        env = {**os.environ, "PYTHONHASHSEED": want_seed, "VERIF_REPLAY_CHILD": "1"}
+        return subprocess.run([PYTHON, *(["-O"] if want_opt else []), os.path.join(ROOT, "run_check.py"), prop, "--replay", path], env=env).returncode
     set_logging(bool(rec.get("logging")))
     r = mod.run_case(rec["case"])
     set_logging(False)
